@@ -405,6 +405,43 @@ def run(ctx):
     from ..unpack import unpack_obligations
     n_k13 = unpack_obligations(ctx, r4, "C17.R4", label="K13")
     ctx.count("K13_unpack_sites", n_k13)
+    # K16: an author-keyed dict (a row of the form definition: any column header may be a key) splatted into a call
+    # NEXT TO explicit keywords: a column with the keyword's name makes Python raise TypeError ("multiple values for
+    # keyword argument").  Safe forms: the explicit value is merged INTO the dict ({**d, key: value}), or the dict is
+    # rebuilt with a filter that excludes exactly the explicit names.
+    n_k16 = 0
+    for fi in repo.all_functions():
+        if fi.fq not in reach or not fi.module.name.startswith(("pyxform.builder", "pyxform.question", "pyxform.section", "pyxform.survey")):
+            continue
+        for c in walk_own(fi.node):
+            if not isinstance(c, ast.Call):
+                continue
+            stars = [k_ for k_ in c.keywords if k_.arg is None]
+            named = [k_.arg for k_ in c.keywords if k_.arg is not None]
+            if not stars or not named:
+                continue
+            res_c = repo.resolve_dotted(fi.module, c.func) if isinstance(c.func, ast.Name | ast.Attribute) else None
+            is_ctor = (res_c is not None and res_c[0] == "class") or (isinstance(c.func, ast.Name) and c.func.id.endswith("_class"))
+            if not is_ctor:
+                continue
+            for st_ in stars:
+                v_ = st_.value
+                if isinstance(v_, ast.Dict):
+                    continue  # a display: later explicit keys win inside it, and a keyword next to it is the author's choice of literal keys
+                excluded = set()
+                if isinstance(v_, ast.DictComp):
+                    for g_ in v_.generators:
+                        for if_ in g_.ifs:
+                            if isinstance(if_, ast.Compare) and len(if_.ops) == 1 and isinstance(if_.ops[0], ast.NotIn):
+                                okx, vx = const_str(ctx, fi.module, if_.comparators[0])
+                                if okx and isinstance(vx, set | frozenset | tuple | list):
+                                    excluded |= set(vx)
+                n_k16 += 1
+                clash = [nm for nm in named if nm not in excluded]
+                r4.check(not clash, f"K16 {fi.qualname}:{call_name(c)}({', '.join(nm + '=' for nm in named)}, **{norm(v_)[:24]})",
+                         "a definition dict is not splatted next to a keyword that one of its (author-chosen) keys can equal", fi.loc(c),
+                         why_fail=f"a column / key named {clash} in the definition raises TypeError: got multiple values for keyword argument")
+    ctx.count("K16_splat_sites", n_k16)
     # K15: decoding bytes that came from outside (a file, a stream) can fail; the failure must be caught where the
     # reader's other failures are caught (UnicodeDecodeError is a ValueError, not one of the library's errors)
     n_k15 = 0
